@@ -1,9 +1,13 @@
 (** C14 — mkfs.  Theorems about the GENERATED arithmetic of PyFat.mkfs (size -> sectors-per-cluster tables, FAT size
     formula, root / reserved constants, FAT[0]): whenever the geometry computation succeeds the volume fits in the
     requested size, has at least one cluster, announces its sector count in exactly one of the two fields, and FAT[0]
-    is the media byte with all other bits set.  That the cluster count falls in the range of the requested type and
-    that the FAT covers count+2 entries is NOT proved (the size tables of the source make it true only for the sizes
-    they list); it is checked on the real mkfs at every table boundary by the independent checker. *)
+    is the media byte with all other bits set, and (C14_type_range, for every size, sector size and FAT count) the
+    cluster count lies in the range the specification assigns to the requested type.  That the FAT covers count+2
+    entries is NOT proved (the upstream formula over-estimates; it is checked on the real mkfs at every table boundary
+    by the independent checker).
+    History: C14_type_range was false of the pinned source (refuted by ft=32, size=34099712, ss=512, nf=3: 65018
+    clusters, and ft=16 at the 2 GiB row: 65527 clusters); repaired in /repo by "fix: mkfs refuses geometries whose
+    cluster count belongs to another FAT type" — the theorem is about the code regenerated from the repaired source. *)
 From Coq Require Import ZArith List Bool.
 From PyFatV Require Import Base.Bytes Base.PyEnv Gen.Pure Proofs.Geometry.
 Import ListNotations.
@@ -35,3 +39,14 @@ Theorem C14_fat12_type : forall size ss nf p num_sec spc rootent rsvd f16 f32 t1
   (0 <= nf * _fat_size p -> (num_sec - (rsvd + root_dir_sectors p + nf * _fat_size p)) / spc < 4085).
 Proof. exact mkfs_fat12_count. Qed.
 Print Assumptions C14_fat12_type.
+
+Theorem C14_type_range : forall ft size ss nf p num_sec spc rootent rsvd f16 f32 t16 t32,
+  ft = 12 \/ ft = 16 \/ ft = 32 ->
+  Gen.mkfs_geometry pf_init ft size ss nf = Ok (p, num_sec, spc, rootent, rsvd, f16, f32, t16, t32) ->
+  type_of_count ((num_sec - (rsvd + root_dir_sectors p + nf * _fat_size p)) / spc) = ft.
+Proof. exact mkfs_type_range. Qed.
+Print Assumptions C14_type_range.
+Example C14_type_examples :
+  (exists x, Gen.mkfs_geometry pf_init 32 34099712 512 2 = Ok x) /\ Gen.mkfs_geometry pf_init 32 34099712 512 3 = Err EINVAL /\
+  (exists x, Gen.mkfs_geometry pf_init 16 (32 * 1024 * 1024) 512 2 = Ok x) /\ type_of_count 65524 = 16 /\ type_of_count 65525 = 32 /\ type_of_count 4084 = 12.
+Proof. vm_compute. repeat split; try reflexivity; eexists; reflexivity. Qed.
